@@ -66,7 +66,11 @@ class BasicRequestBus(RequestBus[RequestT, ResponseT], Generic[RequestT, Respons
         return self._send_inner(request, 0)
 
     def send_chaining(self, request: RequestT, search_offset: int) -> Any:
-        return self._send_inner(request, search_offset)
+        try:
+            return self._send_inner(request, search_offset)
+        except CannotProvide as e:
+            e.exhausted_request = request  # type: ignore[attr-defined]
+            raise
 
     def _send_inner(self, request: RequestT, search_offset: int) -> Any:
         exceptions: list[CannotProvide] = []
@@ -94,6 +98,9 @@ class BasicRequestBus(RequestBus[RequestT, ResponseT], Generic[RequestT, Respons
                 if e.is_terminal:
                     raise self._attach_request_context_notes(e, request)
                 exceptions.append(e)
+                if getattr(e, "exhausted_request", None) is request:
+                    # the handler asked for the next provider and the rest of the recipe has already been tried
+                    next_offset = self._router.get_max_offset()
                 continue
 
             return response
